@@ -26,7 +26,8 @@ import (
 )
 
 type Clause struct {
-	Ord   int      // position in the contract's full clause list (stable under property filtering)
+	Ord   int      // position among the untagged clauses of the contract (stable under property filtering)
+	OrdS  string   // tagged clause: "<prop>.<position among that property's clauses>" - adding clauses for another property never renumbers it
 	Props []string // non-empty: the clause belongs to these properties only
 	Text  string
 	Expr  ast.Expr
@@ -610,4 +611,14 @@ func (cs *ContractSet) parse(src, file, pkgPath string) {
 
 func NewContractSet() *ContractSet {
 	return &ContractSet{Pools: map[string]*PoolDirective{}, Contracts: map[string]*Contract{}, Specs: map[string]*SpecFn{}, Lemmas: map[string]*Lemma{}}
+}
+
+func (c *Clause) ordName(k int) string {
+	if c.OrdS != "" {
+		return c.OrdS
+	}
+	if c.Ord != 0 {
+		return fmt.Sprint(c.Ord)
+	}
+	return fmt.Sprint(k + 1)
 }
